@@ -540,6 +540,9 @@ class MQTTProtocol(MQTTBaseProtocol):
             raise MQTTWindowError("subscription requests exceeded limit", self._window)
         if not isinstance(request.topics, list):
             raise TopicTypeError(type(request.topics))
+        if not request.topics:
+            # [MQTT-3.8.3-3] a SUBSCRIBE without payload is a protocol violation
+            raise ValueError("empty list of topics")
         for (topic, qos) in request.topics:
             if not ( 0<= qos < 3):
                 raise QoSValueError("subscribe", qos)
@@ -554,6 +557,9 @@ class MQTTProtocol(MQTTBaseProtocol):
             raise MQTTWindowError("unsubscription requests exceeded limit", self._window)
         if not isinstance(request.topics, list):
             raise TopicTypeError(type(request.topics))
+        if not request.topics:
+            # [MQTT-3.10.3-2] an UNSUBSCRIBE without payload is a protocol violation
+            raise ValueError("empty list of topics")
 
     # --------------------------
     # Helper methods (publisher)
